@@ -70,7 +70,7 @@ class ECell:
             self.algs = [self.alg]
         # several key-agreement recipients need not share a curve (ECDH-1PU recipients share the sender's)
         self.restricted = rng.random() < 0.3
-        self.token_as = "bytes" if rng.random() < 0.3 else "str"       # compact tokens are accepted as str and as bytes
+        self.token_as = rng.choice(["bytes", "bytes", "bytearray"]) if rng.random() < 0.35 else "str"       # compact tokens are accepted as str and as bytes
         self.plaintext_as = "str" if rng.random() < 0.25 else "bytes"  # encrypt_compact documents bytes | str
         self.curves = [self.curve] * n
         if n > 1 and not g.is_1pu(self.alg) and rng.random() < 0.5:
@@ -172,7 +172,7 @@ def consume(p: EProduced, token=None):
     key = ks[0] if len(ks) == 1 and p.cell.key_via != "keyset" else j.KeySet(ks)
     sender = j.key(gen.public_jwk(p.recs[0]["sender"])) if p.recs[0]["sender"] else None
     if isinstance(tok, str):
-        arg = tok.encode("utf-8") if p.cell.token_as == "bytes" else tok
+        arg = tok if p.cell.token_as == "str" else (tok.encode("utf-8") if p.cell.token_as == "bytes" else bytearray(tok.encode("utf-8")))
         return call(j.jwe.decrypt_compact, arg, key, algorithms=p.allow, sender_key=sender)
     return call(j.jwe.decrypt_json, copy.deepcopy(tok), key, algorithms=p.allow, sender_key=sender)
 
